@@ -830,8 +830,10 @@ def driver_runs(tier, seed):
             tenum = [i for i in items if i["kind"] == "terminal"][0]["name"]
             strs = token_strings(G, rng, tier)
             recs.append({"label": label, "items": items, "text": text, "G": G, "emitted": emitted, "tenum": tenum, "strings": strs})
-        # zero-terminal grammars do not compile (known finding of C05); they get no compiled run
-        comp = [r for r in recs if r["G"]["terminals"]]
+        # zero-terminal grammars do not compile (known finding of C05); they get no compiled run.  Neither do modules
+        # of more than 1 MB (hundreds of terminals × hundreds of states: minutes of rustc each); their tables are
+        # compared in C04/C17 and validated by validB all the same.
+        comp = [r for r in recs if r["G"]["terminals"] and len(r["emitted"]) <= 1_000_000]
         grammars = []
         for r in comp:
             idx = {t: i for i, t in enumerate(r["G"]["terminals"])}
@@ -913,6 +915,8 @@ def _impl_res(r, si):
     s = r["impl"][si]
     if s is None:
         return "missing", None, None
+    if s == "rustc-timeout":
+        return "skip", None, None
     m = re.match(r"(.*) pulls=(\d+)$", s)
     body, pulls = m.group(1), int(m.group(2))
     if body.startswith("ok "):
@@ -933,6 +937,8 @@ def run_C01(rep, tier, rng):
         G = r["G"]
         for si, s in enumerate(r["strings"]):
             kind, detail, pulls = _impl_res(r, si)
+            if kind == "skip":      # the compiler did not finish on this module: nothing was observed
+                continue
             ev += 1
             if kind == "missing":
                 rep.violation("emitted parse did not terminate (watchdog) or the process died", {"label": r["label"], "source": r["text"], "tokens": s})
@@ -967,6 +973,8 @@ def run_C02(rep, tier, rng):
         idx = {t: i for i, t in enumerate(G["terminals"])}
         for si, s in enumerate(r["strings"]):
             kind, detail, pulls = _impl_res(r, si)
+            if kind == "skip":      # the compiler did not finish on this module: nothing was observed
+                continue
             if kind in ("panic", "missing") and oracle.recognize(G, s):
                 rep.violation("no derivation tree is returned for a sentence: the emitted parse " + ("panicked" if kind == "panic" else "did not return"),
                               {"label": r["label"], "source": r["text"], "tokens": s})
@@ -1002,6 +1010,8 @@ def run_C03(rep, tier, rng):
         all_productive = oracle.productive(G) >= set(G["nonterminals"])
         for si, s in enumerate(r["strings"]):
             kind, detail, pulls = _impl_res(r, si)
+            if kind == "skip":      # the compiler did not finish on this module: nothing was observed
+                continue
             if kind not in ("errsome", "errnone"):
                 if kind == "ok" and pulls != len(s):
                     rep.violation("parse pulled a wrong number of items on acceptance", {"label": r["label"], "source": r["text"], "tokens": s, "pulls": pulls})
